@@ -275,7 +275,8 @@ def shapes(tier):
             continue
         if [k1, k2].count("call") > 1 or [k1, k2].count("fn_new") > 1:
             continue        # (a second fn_new would regenerate field c while the first one is still unused: rejected shape)
-        linksets = [["pipe"] * 3] if q else [list(x) for x in itertools.product(lk[:2], repeat=3)] + [["fifo1", "pipe", "fifo2"]]
+        linksets = [["pipe"] * 3] if q else [["pipe"] * 3, ["fifo1", "pipe", "pipe"], ["pipe", "fifo1", "fifo2"],
+                                             ["fifo2", "fifo1", "pipe"]]
         for ls in linksets:
             out.append({"mids": [k1, k2], "links": ls})
     if not q:
@@ -287,7 +288,8 @@ def shapes(tier):
 
 
 def jobs(tier):
-    return [E1("checks.c28", "PipeH", s, max_states=60000, replay_cap=8) for s in shapes(tier)]
+    # the state cap bounds the few shapes with two deep FIFO links (reported as not exhaustive when hit)
+    return [E1("checks.c28", "PipeH", s, max_states=60000 if tier == "quick" else 12000, replay_cap=8) for s in shapes(tier)]
 
 
 def run(rep, tier):
